@@ -118,6 +118,22 @@ func genOpt(stream string, seed uint64, nRandom int) []GenCase {
 			}
 		}
 	}
+	// the operand bytes in front of a conditional jump take every small value (they coincide with opcode
+	// numbers): a bare field, variable, literal or call as the condition, its constant index / value 0..40
+	for k := 0; k <= 40; k++ {
+		var pre strings.Builder
+		for a := 0; a < k; a++ {
+			pre.WriteString(fmt.Sprintf("s = \"k%d\"; ", a))
+		}
+		for _, script := range []string{
+			pre.String() + "if (Flag) { rec(1); } else { rec(2); } while (Off) { rec(3); return 3; } return 4;",
+			pre.String() + "v = Count; if (v) { rec(1); } x = Flag ? 5 : 6; return x;",
+			fmt.Sprintf("if (%d) { rec(1); } else { rec(2); } x = %d ? 5 : 6; while (%d) { return x; } return 0;", k, k, k),
+		} {
+			out = append(out, pairCases(stream, fmt.Sprintf("opt-%d", n), &id, script, r, []string{"code", "stack"}, []string{"tmpl:operand-byte-before-jump"}, 2)...)
+			n++
+		}
+	}
 	for i := 0; i < nRandom; i++ {
 		g := newG(r.Fork())
 		g.chaos = 3
@@ -633,6 +649,19 @@ func genAlias(stream string, seed uint64, n int) []GenCase {
 			emit(strings.ReplaceAll(t, "L", l))
 		}
 	}
+	// a loop's index / key / element copied out in one turn is a value of its own: later turns do not change it
+	for _, t := range []string{
+		"found = -1; foreach i, v in [5, 6, 7] { if (v == 5) { found = i; } } return found;",
+		"first = -1; foreach i, v in 10..14 { if (i == 1) { first = i; } } return [first];",
+		"ks = []; foreach i, v in [\"a\", \"b\", \"c\"] { if (i < 2) { ks = [ks, i]; } } return ks;",
+		"function keep(p) { return p; } k = 0; foreach i, v in [9, 8, 7] { if (v == 9) { k = keep(i); } } return k;",
+		"h = {}; foreach i, c in \"abc\" { if (c == \"a\") { h = {\"at\": i}; } } return h;",
+		"m = 0; foreach k, v in {\"a\": 1, \"b\": 2, \"c\": 3} { if (v == 1) { m = k; } } return m;",
+		"x = 0; foreach i, v in [1.5, 2.5, 3.5] { if (i == 0) { x = v; } v++; } return x;",
+		"x = 0; foreach v in [70000, 70001] { if (x == 0) { x = v; } v++; } return [x, 70000];",
+	} {
+		emit(t)
+	}
 	vars := []string{"a", "b", "c"}
 	for i := 0; i < n; i++ {
 		var sb strings.Builder
@@ -697,6 +726,26 @@ func genDet(stream string, seed uint64, n int, replicas int) []GenCase {
 	}
 	for i, s := range fixed {
 		mk(s, i)
+	}
+	// a host map whose keys differ only by the legacy `$` prefix: each name still reads one fixed entry
+	{
+		var ents [][2]HV
+		for k, nm := range []string{"Count", "Name", "Score", "Big", "Off", "Kx", "Ky", "Kz"} {
+			ents = append(ents, [2]HV{{Kind: "str", S: nm}, {Kind: "int", IntKind: "int", I: int64(k)}})
+			ents = append(ents, [2]HV{{Kind: "str", S: "$" + nm}, {Kind: "int", IntKind: "int", I: int64(100 + k)}})
+		}
+		o := HV{Kind: "map", ElemIface: true, KeyKind: "str", Entries: ents}
+		for j, script := range []string{"return [Count, Name, Score, Big, Off, Kx, Ky, Kz];", "return [$Count, $Name, $Score, $Big, $Off, $Kx, $Ky, $Kz];", "return [Count, $Count, Kz, $Kz];"} {
+			for k := 0; k < replicas; k++ {
+				c := Case{ID: fmt.Sprintf("%s-dollar-%d-%d", stream, j, k), Script: script, Opt: j%2 == 0, Fns: []HostFn{recFn()}, Tags: []string{"determinism", "dollar-keys"},
+					Runs: []Run{{Obj: o, Polls: defaultPolls}, {Obj: o, Polls: defaultPolls}}}
+				gc := GenCase{Case: c, Stream: stream, NonTrivial: k == 0, Pair: fmt.Sprintf("det-dollar-%d", j), Role: "replica", IgnoreKeys: map[string]bool{"d": true}}
+				if k > 0 {
+					gc.ModelFree = true
+				}
+				out = append(out, gc)
+			}
+		}
 	}
 	for i := 0; i < n; i++ {
 		g := newG(r.Fork())
@@ -990,6 +1039,42 @@ func mutateHV(v HV) HV {
 
 // S-wf-shapes (C18): bodies ending in every kind of statement, nested definitions, empty bodies,
 // constructs back to back (join placeholders), and sizes around the 16-bit operand limits
+// programs and function bodies at the size limit (65536 bytes): exactly at it and one byte over - the last
+// statement an `if` whose exit jump points at the last byte. `x = 1;` is 7 bytes and `x = 1 + 1;` 11 without
+// the optimizer's help, so every size near the limit can be hit exactly.
+func genSizeLimit(stream string, r *Rng) []GenCase {
+	var out []GenCase
+	id := 0
+	for _, target := range []int{65536, 65537} {
+		for variant := 0; variant < 2; variant++ {
+			need := target - 7 // the final `if (x) { }`: lookup 3 + jump-if-false 3 + placeholder 1
+			if variant == 1 {
+				need -= 2 // the implicit `void; return` of a function body
+			}
+			b := 0
+			for (need-11*b)%7 != 0 {
+				b++
+			}
+			a := (need - 11*b) / 7
+			var sb strings.Builder
+			sb.WriteString(strings.Repeat("x = 1; ", a))
+			sb.WriteString(strings.Repeat("x = 1 + 1; ", b))
+			sb.WriteString("if (x) { }")
+			script := sb.String()
+			tag := "main-at-size-limit"
+			if variant == 1 {
+				script = "function big() { " + script + " } big(); return 7;"
+				tag = "function-at-size-limit"
+			}
+			c := Case{ID: fmt.Sprintf("%s-size-%d", stream, id), Script: script, Opt: false, Tags: []string{tag, fmt.Sprint(target)}, Fns: []HostFn{recFn()},
+				Runs: []Run{{Obj: stdObject(r), Polls: 400000}}}
+			id++
+			out = append(out, GenCase{Case: c, Stream: stream, NonTrivial: true})
+		}
+	}
+	return out
+}
+
 func genWfShapes(stream string, seed uint64) []GenCase {
 	r := NewRng(seed)
 	var out []GenCase
@@ -1002,6 +1087,8 @@ func genWfShapes(stream string, seed uint64) []GenCase {
 			out = append(out, GenCase{Case: c, Stream: stream, NonTrivial: true})
 		}
 	}
+	out = append(out, genSizeLimit(stream, r)...)
+	id += 4
 	lasts := []string{"", "x = 1;", "x = a + 1;", "rec(a);", "a;", "1;", "return a;", "return;", "local q;", "local q; q = 2;", "x++;", "x += 2;",
 		"if (a) { return 1; }", "if (a) { return 1; } else { return 2; }", "if (a) { x = 1; } else if (b) { x = 2; } else { x = 3; }",
 		"while (x < 3) { x++; }", "while (false) { return 1; }", "foreach v in [1, 2] { rec(v); }", "foreach i, v in [1, 2] { return v; }",
